@@ -3,7 +3,8 @@
    a list of fields (each a list of N: bytes or numbers); the result is a list of N in the same
    canonical serialisation the Go harness prints for the implementation. *)
 From Coq Require Import NArith List Bool.
-From StunV Require Import Base.ListAux Base.Outcome Base.Bytes Base.Slice Model.MsgType Model.Message Model.Rfc.
+From StunV Require Import Base.ListAux Base.Outcome Base.Bytes Base.Slice Model.MsgType Model.Message Model.Rfc
+  Model.Crc32 Model.Sha1 Model.Sha256 Model.Md5 Model.Hmac Model.Attrs Model.Ops.
 Import ListNotations.
 Open Scope N_scope.
 
@@ -32,8 +33,12 @@ Definition ser_attr (a : attr) : list N :=
   [a_type a; a_len a; if len (a_val a) =? 0 then 0 else a_off a; len (a_val a)] ++ bytes (a_val a).
 Definition ser_attrs (l : list attr) : list N := lenN l :: flat_map ser_attr l.
 (* full projected state of a message: type, length, tid, nil flag, attributes, raw *)
+(* views created before a re-allocation of Raw point into the old array in Go: offsets are only
+   comparable right after a decode, so histories use the offset-free form *)
+Definition ser_attr_nooff (a : attr) : list N := [a_type a; a_len a; len (a_val a)] ++ bytes (a_val a).
 Definition ser_msg (m : msg) : list N :=
-  [m_meth m; m_class m; m_length m] ++ m_tid m ++ [b2n (m_attrs_nil m)] ++ ser_attrs (m_attrs m)
+  [m_meth m; m_class m; m_length m] ++ m_tid m ++ [b2n (m_attrs_nil m)]
+  ++ (lenN (m_attrs m) :: flat_map ser_attr_nooff (m_attrs m))
   ++ [len (m_raw m)] ++ bytes (m_raw m).
 
 (* a message value whose Raw has visible bytes [vis] followed by [extra] (capacity = both) *)
@@ -100,10 +105,48 @@ Definition run_c02 (sub : N) (args : list (list N)) : list N :=
   | _, _ => bad_case
   end.
 
+(* C03 / C08 / C09: histories of building operations.
+   301 <[prevlen]> <prevarr> <data> <op> <op> ...
+   result: start status; after every operation [status; error kind; len(Raw); digest of the whole
+   projected state]; finally the whole projected state (type, length, tid, attributes, raw) *)
+(* only the refusal reasons the properties name are compared (10..19); decode error kinds are not *)
+Definition err_kind {A} (o : outcome A) : N :=
+  match o with Err e => if (10 <=? e) && (e <? 20) then e else 0 | _ => 0 end.
+Definition digest (l : list N) : N := crc32_fast (flat_map be32 l).
+
+(* a panic ends the history: nothing after it is compared (Go's state at a panic is whatever the
+   statements before it left behind) *)
+Fixpoint run_ops (m : msg) (ops : list op) (acc : list N) : list N :=
+  match ops with
+  | [] => acc ++ ser_msg m
+  | o :: r =>
+    let '(m', st) := apply_op m o in
+    match st with
+    | Panic | OutOfFuel => acc ++ [st_code st]
+    | _ => run_ops m' r (acc ++ [st_code st; err_kind st; len (m_raw m'); digest (ser_msg m')])
+    end
+  end.
+
+Definition run_c03 (sub : N) (args : list (list N)) : list N :=
+  match sub, args with
+  | 1, [prevlen] :: prevarr :: data :: opfs =>
+    match parse_ops (S (length opfs)) opfs with
+    | None => bad_case
+    | Some ops =>
+      let '(m0, st0) := start_state prevarr prevlen data in
+      match st0 with
+      | Panic | OutOfFuel => [st_code st0]
+      | _ => run_ops m0 ops [st_code st0]
+      end
+    end
+  | _, _ => bad_case
+  end.
+
 Definition run (cmd : N) (args : list (list N)) : list N :=
   match cmd / 100 with
   | 1 => run_c01 (cmd mod 100) args
   | 2 => run_c02 (cmd mod 100) args
+  | 3 => run_c03 (cmd mod 100) args
   | 19 => run_c19 (cmd mod 100) args
   | _ => bad_case
   end.
